@@ -121,6 +121,7 @@ func RunPath(w *World, fn *ssa.Function, prefix []int, opts *Options, sess *smt.
 		mutexes:     map[*value]*mutexModel{},
 		wgs:         map[*value]*wgModel{},
 		pools:       map[*value]*poolModel{},
+		syncMaps:    map[*value]*omap{},
 		counters:    map[string]int{},
 		fnSeen:      map[*ssa.Function]bool{},
 		cellOwner:   map[*value]int{},
